@@ -117,7 +117,7 @@ func (e *Import) String() string {
 }
 
 func (e *Import) writeTo(s *strings.Builder) {
-	if e.ImportPath != "" {
+	if e.ImportAlias != "" {
 		s.WriteString("import ")
 		jsonEncodeString(s, e.ImportPath)
 		s.WriteString(" as ")
